@@ -447,7 +447,8 @@ def run_check(pid, spec, tier, seed, only_stage=None, build_only=False):
         if crash:
             log('[%s] stage %s crashed (rc=%s); stderr tail:\n%s' % (pid, st.name, crash['returncode'], crash['stderr_tail']))
             cands = read_trace(crash['trace'])
-            names = subprocess.run([st.binary, '--list'], stdout=subprocess.PIPE, text=True).stdout.split('\n')
+            lenv = dict(os.environ); lenv.update(st.env); lenv['PBT_QUIET'] = '1'
+            names = [l for l in subprocess.run([st.binary, '--list'], stdout=subprocess.PIPE, stderr=subprocess.DEVNULL, text=True, env=lenv).stdout.split('\n')]
             confirmed = False
             for ti, ch in cands:
                 if ti >= len(names):
@@ -493,6 +494,12 @@ def run_check(pid, spec, tier, seed, only_stage=None, build_only=False):
                     unconfirmed.append(rec)
                     log('[%s] failure %s did not reproduce 3x from its replay file (harness nondeterminism?) — not reported as violation' % (pid, fullkey))
 
+    seen, uniq = set(), []
+    for v in violations:
+        kk = (v['stage'], v['target'], v['key'])
+        if kk not in seen:
+            seen.add(kk); uniq.append(v)
+    violations = uniq
     # 3. evidence
     ev = make_evidence(pid, spec, tier, seed, results, violations, known_hits, unconfirmed, notes, time.time() - t_start)
     os.makedirs(EVID, exist_ok=True)
